@@ -47,6 +47,7 @@ func (c17) Configure(r *e.RNG, tier string) e.Config {
 	c.Flags["w_gov"] = r.Range(0, 2)
 	c.Flags["w_crash"] = r.Range(0, 1)
 	c.Flags["empty_blocks"] = r.Range(0, 1)
+	c.FeeEnableHeight = []int64{0, 0, 0, 2, 3, 6}[r.Intn(6)]
 	return c
 }
 
@@ -139,7 +140,7 @@ func (c17) Setup(w *e.World) error {
 		stored := w.App().FeeMarketKeeper.GetBlockGasWanted(ctx)
 		w.Stats.Oracle++
 		// the figure is only defined for blocks executed with the base fee enabled
-		m.figureValid = !p.NoBaseFee && !m.preParams.NoBaseFee && !m.noBaseFeeAtBegin
+		m.figureValid = !p.NoBaseFee && !m.preParams.NoBaseFee && !m.noBaseFeeAtBegin && w.Height >= p.EnableHeight && w.Height >= m.preParams.EnableHeight
 		if m.figureValid && !m.gCands[stored] {
 			return e.Violatef("base-fee-gas-figure", "block-gas-figure-wrong", "block %d: stored gas figure %d, reference max(gasWanted x multiplier, gasUsed) gives %v (sum gasWanted of accepted txs %d, sum gasUsed %d, txs %+v)", w.Height, stored, keysU(m.gCands), wantedSum, usedSum, m.txs)
 		}
@@ -203,6 +204,17 @@ func (c17) checkStep(w *e.World, m *c17Model) *e.Violation {
 	got := now.BaseFee.BigInt()
 	w.Stats.Oracle++
 	m.noBaseFeeAtBegin = now.NoBaseFee
+	if w.Height < now.EnableHeight || w.Height < m.params.EnableHeight {
+		return nil // the fee market is not in force yet
+	}
+	if w.Height == now.EnableHeight {
+		// the first block of the fee market starts from the configured base fee
+		if got.Cmp(m.base) != 0 {
+			return e.Violatef("base-fee-step", "base-fee-at-enable-height-not-initial", "block %d: base fee %s, configured %s", w.Height, got, m.base)
+		}
+		w.Stats.Probe("enable_height_block")
+		return nil
+	}
 	if now.NoBaseFee || m.params.NoBaseFee {
 		if got.Cmp(m.base) != 0 && now.NoBaseFee {
 			return e.Violatef("base-fee-step", "base-fee-moved-while-disabled", "block %d: %s -> %s", w.Height, m.base, got)
